@@ -827,6 +827,18 @@ func buildAlignPlan(prop string) (*alPlan, error) {
 				pb.call(t, all, append(append([]byte{}, all[3:]...), all[:3]...))
 				pb.call(t, all[:300], sh[:280])
 			}
+			// sequences with exactly n distinct byte values, n around the sizes a small table or a bit set would be built for
+			for _, n := range []int{15, 16, 17, 31, 32, 33, 63, 64, 65, 128} {
+				perm := r.Perm(255)[:n]
+				var x, y []byte
+				for _, v := range perm {
+					x = append(x, byte(v), byte(v))
+				}
+				y = append(y, x[1:]...)
+				r.Shuffle(len(y)/2, func(i, j int) { y[i], y[j] = y[j], y[i] })
+				pb.call(t, x, y)
+				pb.call(t, y[:len(y)/2], x)
+			}
 			ls := []byte("acgtACGTn-")
 			for k := 0; k < 10*rmult; k++ {
 				a, b := alRelatedPair(r, ls, 30)
